@@ -10,12 +10,14 @@ import props_conc
 import props_obj
 import props_fault
 import props_het
+import props_anyid
 import concengine
 
 SEQ_PLANS = {}
 SEQ_PLANS.update(props_cl.PLANS)
 SEQ_PLANS.update(props_dq.PLANS)
 SEQ_PLANS.update(props_het.PLANS)
+SEQ_PLANS.update(props_anyid.PLANS)
 
 CUSTOM = {}   # pid -> function(tier, seed) -> exit code   (engines that are not plan-shaped)
 for _pid, _fn in props_conc.PLANS.items():
